@@ -9,7 +9,8 @@ along the name in the current heap (and, for a link, the link is a `.` link).
 
 Histories start from a tree-shaped heap `h₀` with no registration (`start h₀`;
 `Heap.init` = a single root, every graph is then built by the history itself)
-and consist of `Op`s, every insertion using a fresh object.
+and consist of `Op`s; a container change inserts fresh objects and/or objects that were in the
+same container before it (reorderings, carry-over reassignments), so the graph stays a tree.
 -/
 import TraitsVerif.Lemmas.LegacyMain
 namespace TraitsVerif.Props.C16
@@ -20,7 +21,8 @@ open TraitsVerif.Model.Legacy
 /-- Every operation of a history (reassignment of a link to a fresh object or
 `None`, list and dict reassignment, slice assignment / append / insert / delete /
 clear with fresh objects, dict `__setitem__` / `update` / `|=` / `setdefault` /
-`__delitem__` / `pop` / `popitem` / `clear`) preserves
+`__delitem__` / `pop` / `popitem` / `clear`; in-place reorderings `reverse` / `sort` /
+`kids[:] = …` and reassignments of a list or dict that carry current objects over) preserves
 tree-shapedness. -/
 theorem C16_tree_preserved {h : Heap} {op : Op} {m : Mut} (ht : TreeShaped h)
     (hm : mutate h op = some m) : TreeShaped m.h' := by
